@@ -83,6 +83,10 @@ CHECKS.update({
             "Bounded: tokenize(s) returns or raises FormulaSyntaxError for every string of <=2 (3) code points; Formula.from_spec over every stream of <=2 symbols of a 31-symbol error alphabet and <=3 of a 16 (20)-symbol cut, and over every single-token replace/insert/delete edit of 10 (20) well-formed seeds, ends in a formula, a FormulaParsingError, or a SyntaxError only if an embedded Python fragment is invalid; flag monotonicity over 3-token streams x 8 flag subsets.",
             "Termination = within the per-path timeout on every explored path; strings outside the bounds are outside the claim.",
             "DESIGN.md §3 C14"),
+    "C15": ("CH", "CrossHair 0.0.110 (z3): whitespace sites, quoted names / fragments and whole input strings are SYMBOLIC strings (CH-sym, all of Unicode); Python-fragment reformattings and single-character names via symbolic indices (CH-enum); native cross-validation; counterexamples replayed natively",
+            "Bounded solver-checked: for ~95 (all 676 thorough) ordered token pairs of a 26-symbol alphabet any Unicode whitespace (or none, where an operator/bracket is adjacent) before / between / after yields the canonical token list, and 12 formulas with symbolic whitespace at their boundaries parse identically; back-tick names of <=2 (3) arbitrary code points and brace/call fragments of <=2 (3) code points are single verbatim tokens; every one-character name over a 101-character menu denotes its own factor; token spans of every string of <=2 (3) code points are in range, ordered, non-overlapping and delimit the token text; 10 Python fragments x reformattings denote one factor.",
+            "Whitespace runs of length <=1 per site; known findings: columns named '.' and '1' cannot be referenced.",
+            "DESIGN.md §3 C15"),
 })
 
 NOT_APPLICABLE = {
